@@ -967,7 +967,7 @@ theorem msgSigLoop_safe (mbuf : Buf) (hfit : mbuf.size ≤ 65535) (pflags : Nat)
 theorem getMsgSig_safe (m : PSIPMsg) (b : Buf) (hfit : b.size ≤ 65535) (hlen : m.bufLen ≤ b.size)
     (hcid : m.pv.callid.callID.inside m.bufLen) (htag : m.pv.from_.tag.inside m.bufLen)
     (hvia : ∀ k, k < m.hl.hdrs.size → m.hl.hdrs[k]!.type = HdrVia → m.hl.hdrs[k]!.val.inside m.bufLen) :
-    (getMsgSig m b).2.2 = false := by
+    (getMsgSigCore m b).2.2 = false := by
   cases hreq : m.request
   · rw [getMsgSig_reply m b hreq]
   · have hsz : (b.extract 0 m.bufLen).size = m.bufLen := by simp only [Array.size_extract]; omega
@@ -992,7 +992,7 @@ theorem getMsgSig_after_parse (b : Buf) (o : Nat) (m : PSIPMsg) (flags : Nat) (h
     (hok : msgOK2 b o m) (H : MsgSafe b o m) {o' : Nat} {m' : PSIPMsg}
     (hr : parseSIPMsg b o m flags = (o', .ok, m'))
     (hun : ∀ k, m'.hl.n ≤ k → k < m'.hl.hdrs.size → m'.hl.hdrs[k]!.type ≠ HdrVia) :
-    (getMsgSig m' b).2.2 = false := by
+    (getMsgSigCore m' b).2.2 = false := by
   obtain ⟨h, _, _, hle, hL⟩ := parseSIPMsg_layout b o m flags hfit hok H hr
   have hT := parseSIPMsg_safe b o m flags hfit hok H
   rw [hr] at hT
@@ -1014,7 +1014,7 @@ def srTestMsg : Buf :=
 
 /-- non-vacuity of `getMsgSig_after_parse`: all its hypotheses hold for a concrete request parsed into an object
     produced by Init (the last hypothesis — unused slots hold no Via — checked by computation) -/
-example : (getMsgSig (parseSIPMsg srTestMsg 0 (({} : PSIPMsg).init 0 none none) 0).2.2 srTestMsg).2.2 = false := by
+example : (getMsgSigCore (parseSIPMsg srTestMsg 0 (({} : PSIPMsg).init 0 none none) 0).2.2 srTestMsg).2.2 = false := by
   have he : (parseSIPMsg srTestMsg 0 (({} : PSIPMsg).init 0 none none) 0).2.1 = .ok := by decide +kernel
   have hr : parseSIPMsg srTestMsg 0 (({} : PSIPMsg).init 0 none none) 0 =
       ((parseSIPMsg srTestMsg 0 (({} : PSIPMsg).init 0 none none) 0).1, .ok,
@@ -1030,7 +1030,7 @@ example : (getMsgSig (parseSIPMsg srTestMsg 0 (({} : PSIPMsg).init 0 none none) 
     (MsgSafe_init srTestMsg 0 (Nat.zero_le _) {} 0 0 0 none none) hr
     (fun k h1 h2 => hun k (by omega) h1)
 /-- test: the message above is a request with a Via branch, a Call-ID containing an IPv4 address and a From tag -/
-example : (getMsgSig (parseSIPMsg srTestMsg 0 (({} : PSIPMsg).init 0 none none) 0).2.2 srTestMsg).2.1 = .ok := by
+example : (getMsgSigCore (parseSIPMsg srTestMsg 0 (({} : PSIPMsg).init 0 none none) 0).2.2 srTestMsg).2.1 = .ok := by
   decide +kernel
 /-- tests: comparison of two URIs with parameters and headers; a list with less room than parameters -/
 example : (uriParseCmp "sip:u@h;a=b?x=y".toUTF8.data "sip:u@H;A=b?X=y".toUTF8.data 0).map (·.1) = some true := by
